@@ -88,6 +88,12 @@ class Asap7Walker(h.HierarchyWalker):
 
     def mos_module(self, params: MosParams) -> h.ExternalModule:
         """Retrieve or create an `ExternalModule` for a MOS of parameters `params`."""
+        if params.model is not None:
+            # Selection by model-name, i.e. by the name of one of our modules
+            mod = getattr(modules, params.model, None)
+            if not isinstance(mod, h.ExternalModule):
+                raise RuntimeError(f"No Mos module for model name {params.model}")
+            return mod
         mod = _mos_modules.get((params.tp, params.vth), None)
         if mod is None:
             raise RuntimeError(f"No Mos module for type {params.tp} and threshold {params.vth}")
@@ -105,8 +111,13 @@ class Asap7Walker(h.HierarchyWalker):
 
         # Translate its parameters
         # FIXME: further parameter transformations likely to come
-        modparams = asdict(params)
-        modparams.pop("vth", None)
+        # The device takes the sizes and multipliers which were given. What *selected* it - type, threshold, family, model -
+        # is not a parameter of the device. (Values are handed on as they are: `asdict` would take `Literal`s apart.)
+        modparams = {
+            name: getattr(params, name)
+            for name in ("w", "l", "nf", "mult")
+            if getattr(params, name, None) is not None
+        }
 
         # Combine the two into a call, cache and return it
         modcall = mod(modparams)
